@@ -585,10 +585,21 @@ class _Pass:
             memo[to] = r
             return r
 
+        reach_join = {join}
+        work = [join]
+        while work:
+            n = work.pop()
+            for p_ in self.cfg.pred[n]:
+                if p_ in self.cfg.nodes and p_ not in reach_join:
+                    reach_join.add(p_)
+                    work.append(p_)
+
         def tree1(frm, to, depth):
             budget[0] -= 1
             if budget[0] < 0 or depth > 200:
                 return None
+            if to not in reach_join:
+                return ('never',)
             if not self.cfg.dominates(d, to) or to == d:
                 return None
             t = self.body.blocks[to]['term']
